@@ -12,20 +12,21 @@ namespace Srad.Host
 /-- every state reachable by any history satisfies the invariant -/
 theorem C06_reachable_inv (c : Cfg) (evs : List Ev) (hwf : ∀ e ∈ evs, e.inp.WF) :
     HostInv (run c init evs).1 := by
-  sorry
+  exact (run_spec c evs init init_inv hwf).1
 
 /-- **First sentence.** In the effect trace of every history, each data effect on the node's
 store is preceded, most recently among its lifecycle effects, by an accepted birth, and each
 data effect on a device's store likewise for the node and for that device. -/
 theorem C06_data_guarded (c : Cfg) (evs : List Ev) (hwf : ∀ e ∈ evs, e.inp.WF) :
     DataGuarded .stale (fun _ => .stale) (run c init evs).2 := by
-  sorry
+  exact Guard_dataGuarded _ _ _ (run_spec c evs init init_inv hwf).2.2.2
 
 /-- what the actor records as lifecycle is what the stores were told -/
 theorem C06_state_matches_trace (c : Cfg) (evs : List Ev) (hwf : ∀ e ∈ evs, e.inp.WF) :
     (run c init evs).1.life = nodeLife .stale (run c init evs).2 ∧
     ∀ d, devState (run c init evs).1 d = devLife d .stale (run c init evs).2 := by
-  sorry
+  obtain ⟨h1, h2, _⟩ := (run_spec c evs init init_inv hwf).2
+  exact ⟨h1.symm, fun d => (h2 d).symm⟩
 
 /-- **Second sentence, NDEATH** (matching or not): afterwards the node and all devices are held
 stale, and if the node was birthed its store and every device store were told so. -/
@@ -35,7 +36,7 @@ theorem C06_ndeath_marks_stale (c : Cfg) (s : St) (bd now wall : Nat) (hinv : Ho
     (∀ d ∈ (step c s (.ndeath bd) now wall).1.devices, d.2 = .stale) ∧
     (s.life = .birthed → Eff.nodeStale ∈ (step c s (.ndeath bd) now wall).2 ∧
       ∀ d ∈ s.devices, Eff.devStale d.1 ∈ (step c s (.ndeath bd) now wall).2) := by
-  sorry
+  exact ndeath_marks c s bd now wall hinv hclock
 
 /-- **Second sentence, host offline.** -/
 theorem C06_offline_marks_stale (c : Cfg) (s : St) (now wall : Nat) (hinv : HostInv s)
@@ -44,7 +45,7 @@ theorem C06_offline_marks_stale (c : Cfg) (s : St) (now wall : Nat) (hinv : Host
     (∀ d ∈ (step c s .offline now wall).1.devices, d.2 = .stale) ∧
     (s.life = .birthed → Eff.nodeStale ∈ (step c s .offline now wall).2 ∧
       ∀ d ∈ s.devices, Eff.devStale d.1 ∈ (step c s .offline now wall).2) := by
-  sorry
+  exact offline_marks c s now wall hinv hclock
 
 /-- **Second sentence, rebirth request issued by the host**, whatever triggered it. -/
 theorem C06_rebirth_marks_stale (c : Cfg) (s : St) (i : In) (now wall : Nat) (hinv : HostInv s)
@@ -53,7 +54,7 @@ theorem C06_rebirth_marks_stale (c : Cfg) (s : St) (i : In) (now wall : Nat) (hi
     (∀ d ∈ (step c s i now wall).1.devices, d.2 = .stale) ∧
     (s.life = .birthed → Eff.nodeStale ∈ (step c s i now wall).2 ∧
       ∀ d ∈ s.devices, Eff.devStale d.1 ∈ (step c s i now wall).2) := by
-  sorry
+  exact rebirth_marks c s i now wall hinv hwf hclock h
 
 /-- … and from then on no data reaches the node's store or any device store: a step taken in a
 stale state emits no data effect at all (the next data effect needs an accepted NBIRTH first,
@@ -61,14 +62,14 @@ and by `C06_data_guarded` a device's needs its own DBIRTH). -/
 theorem C06_stale_blocks_data (c : Cfg) (s : St) (i : In) (now wall : Nat) (hinv : HostInv s)
     (hst : s.life = .stale) :
     ∀ e ∈ (step c s i now wall).2, (∀ id, e ≠ Eff.nodeData id) ∧ (∀ d id, e ≠ Eff.devData d id) := by
-  sorry
+  exact fun e he => Eff.not_data e (stale_no_data c s i now wall hst e he)
 
 /-- **Third sentence.** A message time-stamped before the current birth or before the last
 staleness changes nothing and reaches no store. -/
 theorem C06_old_message_discarded (c : Cfg) (s : St) (seq ts : Nat) (m : RMsg) (now wall : Nat)
     (h : ts < s.birthTs ∨ ts < s.staleTs) :
     step c s (.rmsg seq ts m) now wall = (s, []) := by
-  sorry
+  simp [step, handleRMsg, h]
 
 /-! ### K1 — the excluded point of `hclock`, exhibited (a finding, see KNOWN_FINDINGS.json):
 with the node's clock ahead of the host's, an NDEATH is ignored and later data is applied. -/
